@@ -92,11 +92,12 @@ fn shape(t: &Table) -> Shape {
         }
     };
     let class = format!(
-        "nf{nf}:w{}:arr{arr}:key{key}:rows{}:str{strs}:L{}{}",
+        "nf{nf}:w{}:arr{arr}:key{key}:rows{}:str{strs}:L{}{}{}",
         if mix { "mix" } else { "same" },
         rows_class(t.rows.len()),
         t.layout.mode,
-        if t.writer_explicit_schema { "" } else { ":ws-from-set" }
+        if t.writer_explicit_schema { "" } else { ":ws-from-set" },
+        if t.tail.kind == 0 { String::new() } else { format!(":tail-{}", t.tail.name()) }
     );
     Shape {
         class,
@@ -133,6 +134,13 @@ fn run_table(ctx: &Ctx, t: &Table) -> engine::CaseResult {
         (t.key.is_some_and(|k| k > 0 && k + 1 < t.fields.len()), "ess:key-in-the-middle"),
         (t.key.is_some_and(|k| k + 1 == t.fields.len() && k > 0), "ess:key-last"),
         (!t.writer_explicit_schema, "ess:writer-schema-from-record-set"),
+        (t.tail.kind == 1, "ess:file-longer-than-table:zero-padding"),
+        (t.tail.kind == 2, "ess:file-longer-than-table:garbage"),
+        (t.tail.kind == 3, "ess:file-longer-than-table:saved-over-older-larger-table"),
+        (t.tail.kind != 0 && s.shared && !t.rows.is_empty(), "ess:file-longer-than-table:with-shared-strings"),
+        (t.tail.kind != 0 && t.has_str_array(), "ess:file-longer-than-table:with-string-array"),
+        (t.tail.kind != 0 && !t.has_str(), "ess:file-longer-than-table:no-string-field"),
+        (t.tail.kind != 0 && t.rows.is_empty(), "ess:file-longer-than-table:rows-0"),
     ] {
         if flag {
             check.bump(name, 1);
@@ -258,6 +266,36 @@ fn grid() -> Vec<(String, Params)> {
             g.push((format!("no-string-field:empty-block{}:junk{}", eb as u8, junk as u8), p));
         }
     }
+    // files that are longer than the table they hold: padding to an alignment, garbage, the end of an older
+    // table with more rows; the rewritten file is then also saved over such a file (opened without truncation)
+    for (kind, lens) in [(1u8, [4u16, 16, 512]), (2, [1, 7, 64]), (3, [1, 5, 40])] {
+        for (li, len) in lens.into_iter().enumerate() {
+            for mode in 0..4u8 {
+                let mut p = grid_params(nine.clone(), Some(1), 12, next());
+                p.layout = (mode, mode == 2, false);
+                p.writer_explicit_schema = (li + mode as usize) % 2 == 0;
+                p.str_skew = 1;
+                p.tail = (kind, len);
+                g.push((format!("file-longer-than-table:kind{kind}:len{len}:L{mode}"), p));
+            }
+        }
+        for n in [0usize, 1, 2, 300] {
+            let mut p = grid_params(vec![(U32, 0), (U8, 0), (Str, 0), (I16, 0), (Str, 2)], Some(0), n, next());
+            p.str_skew = 2;
+            p.tail = (kind, 3);
+            g.push((format!("file-longer-than-table:kind{kind}:rows{n}"), p));
+        }
+        let mut p = grid_params(vec![(U16, 0), (U32, 0), (I8, 0)], Some(1), 4, next());
+        p.tail = (kind, 9);
+        g.push((format!("file-longer-than-table:kind{kind}:no-string-field"), p));
+        let mut p = grid_params(vec![(U16, 0), (U32, 0), (I8, 0)], Some(1), 0, next());
+        p.layout = (0, false, true);
+        p.tail = (kind, 2);
+        g.push((format!("file-longer-than-table:kind{kind}:no-string-field:empty-block:rows0"), p));
+        let mut p = grid_params(vec![(U32, 0), (Str, 8), (U32, 0)], Some(0), 5, next());
+        p.tail = (kind, 6);
+        g.push((format!("file-longer-than-table:kind{kind}:locstring[8]"), p));
+    }
     // locale-style string arrays: lost elements vs. elements that a scalar field also references
     {
         let mut p = grid_params(vec![(U32, 0), (Str, 8), (U32, 0)], Some(0), 5, next());
@@ -278,15 +316,20 @@ fn main() {
          whose atoms are boundary-heavy random values (floats as raw bits incl. NaNs), strings drawn \
          from a pool of 1..10 texts (empty, ASCII, non-ASCII, long, suffix of another, duplicate), \
          keys duplicate-heavy/unsorted/sorted; the reference file is produced by the harness's own \
-         WDBC encoder with an interned, per-reference-copy or suffix-shared string block. A \
+         WDBC encoder with an interned, per-reference-copy or suffix-shared string block; 30 % of \
+         the tables live in a file that is longer than the table (zero padding to an alignment, \
+         garbage, or the end of an older table with more rows behind the string block; the \
+         rewritten table is then also saved by DbcWriter over such a file opened without \
+         truncation, the older table having been saved by DbcWriter too). A \
          deterministic grid (independent of the seed) visits every type as scalar and array, every \
          layout, key positions and distributions, 0/1/2/300/2000/10000 rows, 24-field schemas. \
          Non-trivial = schema mixes field widths or has an array AND at least two records share a \
          string. Distinct = (field-count class, widths, arrays, key type/position/dup/unsorted, \
-         row class, string sharing, string-block layout, writer schema source).",
+         row class, string sharing, string-block layout, writer schema source, kind of bytes behind the table).",
     );
     check.assume("dbcenc (this directory) is my transcription of the published WDBC layout; header field_count counts columns with arrays expanded (what Schema::validate demands of a file)");
     check.assume("strings are valid UTF-8 without NUL (the API returns &str); Bool atoms are written as 0/1 in the reference file");
+    check.assume("a file whose header describes the table exactly and that has further bytes behind the string block is a valid file (parse_layout: header, records and strings 'must not be larger than the file'); all access paths must read the table from it");
     check.assume("a lookup of a duplicated key may return any record carrying that key");
     check.assume("Int32 key values are generated non-negative so that `as u32` is the only reading of the Key type");
 
@@ -362,6 +405,13 @@ fn main() {
         "ess:key-in-the-middle",
         "ess:key-last",
         "ess:writer-schema-from-record-set",
+        "ess:file-longer-than-table:zero-padding",
+        "ess:file-longer-than-table:garbage",
+        "ess:file-longer-than-table:saved-over-older-larger-table",
+        "ess:file-longer-than-table:with-shared-strings",
+        "ess:file-longer-than-table:with-string-array",
+        "ess:file-longer-than-table:no-string-field",
+        "ess:file-longer-than-table:rows-0",
     ] {
         if check.counter(ess) == 0 {
             check.inconclusive(&format!("essential class {ess} not produced by the grid"));
